@@ -171,7 +171,7 @@ var tgMcHandshake = register(&target{
 	run: runMcHandler("handshake", gidsOfGIDs),
 })
 
-func TestC37_MulticastHandshakeIncoming(t *testing.T) { check(t, tgMcHandshake, 200) }
+func TestC37_MulticastHandshakeIncoming(t *testing.T) { check(t, tgMcHandshake, 160) }
 
 // ---- notify ------------------------------------------------------------------------------------------------
 
@@ -385,4 +385,4 @@ var tgMcClients = register(&target{
 	},
 })
 
-func TestC37_MulticastClients(t *testing.T) { check(t, tgMcClients, 200) }
+func TestC37_MulticastClients(t *testing.T) { check(t, tgMcClients, 160) }
